@@ -21,6 +21,7 @@ type hrun struct {
 	Panics   bool  // a panic of the code under test is a violation of this property
 	MaxPaths int64 // 0 = exhaustive; otherwise the run is reported as truncated when hit
 	Seconds  int   // wall clock cap for this harness (0 = none); hitting it is reported
+	Only     []string // when set, only these assertion ids belong to the property
 	Ignore   []string // assertion ids of this harness that belong to other properties
 	InfoOnly []string // assertion ids that are informational (never a violation)
 }
@@ -188,6 +189,17 @@ func cmdRun(args []string) int {
 		ignore := map[string]bool{}
 		for _, id := range hr.Ignore {
 			ignore[id] = true
+		}
+		if len(hr.Only) > 0 {
+			only := map[string]bool{}
+			for _, id := range hr.Only {
+				only[id] = true
+			}
+			for _, cs := range ex.Cands {
+				if !only[cs[0].Assertion] {
+					ignore[cs[0].Assertion] = true
+				}
+			}
 		}
 		info := map[string]bool{}
 		for _, id := range hr.InfoOnly {
